@@ -228,7 +228,11 @@ int main(int argc, char **argv)
     std::vector<std::pair<std::string, RCP<const Basic>>> leaves
         = {{"x", x},        {"y", y},         {"1", integer(1)}, {"-1", integer(-1)}, {"2", integer(2)}, {"3", integer(3)},
            {"1/2", Q(1, 2)}, {"1/3", Q(1, 3)}, {"3/2", Q(3, 2)},  {"-1/2", Q(-1, 2)},  {"8", integer(8)}, {"I", I},
-           {"pi", pi}};
+           {"pi", pi},
+           // structured leaves: the direct functions and the reciprocals that simplify() rewrites into them, so that products whose
+           // factors COLLIDE after the rewrite (sin(x) * 1/csc(x)) exist at depth 1 (added after seeded change C35 escaped)
+           {"sin(x)", sin(x)}, {"cos(x)", cos(x)}, {"tan(x)", tan(x)}, {"1/csc(x)", div(one, csc(x))}, {"1/sec(x)", div(one, sec(x))},
+           {"1/cot(x)", div(one, cot(x))}};
     T.bin_names = {"add", "mul", "pow", "max", "min"};
     T.un_names = {"abs", "sign", "floor", "ceiling", "conjugate", "log", "csc", "sec", "cot"};
     T.bin = [](int op, const RCP<const Basic> &a, const RCP<const Basic> &b) -> RCP<const Basic> {
